@@ -26,7 +26,7 @@ echo "== demo without change (must pass)" >>"$LOG"
 git apply -R patch.diff
 if ! go test -vet=off -count=1 -run 'Seeded|seeded|Demo' "$PKG" >>"$LOG" 2>&1; then echo "DEMO FAILS ON PRISTINE"; git apply patch.diff; exit 1; fi
 git apply patch.diff
-cp patch.diff "$OUT/patch.diff"; cp "$DEMO" "$OUT/$(basename "$DEMO")"
+cp patch.diff "$OUT/patch.diff"; git status --porcelain | grep "^??" | awk "{print \$2}" | grep -v "^patch.diff$" | while read f; do mkdir -p "$OUT/demo/$(dirname "$f")"; cp -r "$f" "$OUT/demo/$f"; done
 python3 - "$OUT" "$ID" "$PROP" "$NEEDS" "$DEMO" "$FAILS" <<'PY'
 import json,sys
 out,id_,prop,needs,demo,fails=sys.argv[1:7]
